@@ -590,6 +590,34 @@ inductive Good (s : St) : Name → Prop where
       (∀ d, d ∈ f.deps → d.injectOK s) →
       (∀ d m, d ∈ f.deps → d.eff = some (m, false) → Good s m) → Good s n
 
+/-! the field-wise reading of the injectors: what one field holds after them -/
+
+/-- what a map / data-scope injector stores into a field that holds `cur` (nothing: `cur` stays) -/
+def leafPick (t : TagName) (data : List (Name × Inst)) (fld : Field) (cur : Option Inst) : Option Inst :=
+  match parseTag (fld.raw t) with
+  | none => cur
+  | some (key, _) =>
+    match lookupData data key with
+    | none => cur
+    | some x => if x = .nil then cur else some x
+
+mutual
+/-- the value of a field after an injector that did not fail -/
+def Injector.pick : Injector → Field → Option Inst → Option Inst
+  | .map t data, fld, cur => leafPick t data fld cur
+  | .scope t data, fld, cur => leafPick t data fld cur
+  | .nop, _, cur => cur
+  | .multi l, fld, cur => pickAll l fld cur
+/-- … after a list of injectors, in order: the last one that has a value for the field wins -/
+def pickAll : List Injector → Field → Option Inst → Option Inst
+  | [], _, cur => cur
+  | i :: rest, fld, cur => pickAll rest fld (i.pick fld cur)
+end
+
+def Op.isKeys : Op → Bool
+  | .keys => true
+  | _ => false
+
 def Res.isInst : Res → Bool
   | .inst _ => true
   | .err _ => false
